@@ -49,7 +49,7 @@ def _to_float(v):
 
 
 def prove(dag, hyps, goal_node, timeout=20.0, solvers=('z3', 'cvc5', 'z3new'), get_values=(), tr=None,
-          label=''):
+          label='', parallel=False):
     """Return (status, result, text): 'proved' | 'refuted' | 'unknown'."""
     if goal_node == dag.TRUE:
         if tr is not None:
@@ -64,7 +64,7 @@ def prove(dag, hyps, goal_node, timeout=20.0, solvers=('z3', 'cvc5', 'z3new'), g
     if tr is not None:
         tr.obligation(text, nontrivial=bool(dag.variables([goal_node])) or bool(dag.ufs([goal_node])))
     r = smt.solve_text(text, get_values=get_values, timeout=timeout, solvers=solvers,
-                       first_timeout=min(timeout, 10.0))
+                       first_timeout=min(timeout, 10.0), parallel=parallel)
     if r.status == 'unsat':
         return 'proved', r, text
     if r.status == 'sat':
